@@ -138,6 +138,26 @@ func (w *World) userBody(ui int) {
 			}
 		}
 		switch op.K {
+		case "flood":
+			// keeps the urgent queue of one loop busy until the engine has stopped:
+			// a shutdown must get through regardless
+			cs := w.waitConn(op.Conn, false)
+			if cs == nil {
+				continue
+			}
+			w.floodUsers++
+			w.probes["flood-until-stop"]++
+			for i := 0; i < 20000 && !w.runDone && w.ph < phPost; i++ {
+				id := w.newOpID()
+				data := outPayload(id, 1)
+				aid := w.newAsync("asyncwrite", cs.idx, ui)
+				seq++
+				w.asyncs[aid].seq = seq
+				err := cs.c.AsyncWrite(data, func(c gnet.Conn, err error) error { w.asyncWriteDone(aid, cs, id, 1, c, err); return nil })
+				w.asyncIssued(aid, err)
+				vsched.Yield("user:flood")
+			}
+			continue
 		case "await-stop":
 			vsched.Block("user:await-stop", func() bool { return w.runDone })
 			w.probes["control-after-stop-armed"]++
